@@ -154,6 +154,9 @@ type Env struct {
 	gates   gates
 	// logDelay: the user's Logger takes this long on every state-transition line (a Logger may block briefly)
 	logDelay time.Duration
+	// errLogDelay: the same for the line handleError logs first (the manager is then busy for that long before it
+	// acts on the error)
+	errLogDelay time.Duration
 }
 
 type Peer struct {
@@ -210,6 +213,9 @@ func newEnv(idx int, localID string) *Env {
 				cls = d + "." + n[2] + "." + n[3]
 			}
 			e.tr.log(p.key, "log.err", t[1], t[2], cls)
+			if e.errLogDelay > 0 {
+				time.Sleep(e.errLogDelay)
+			}
 		} else if t := dampRe.FindStringSubmatch(msg); t != nil {
 			d, err := time.ParseDuration(t[1])
 			if err == nil {
@@ -498,6 +504,35 @@ func (e *Env) serveAdv(holdFirst bool) {
 	}()
 }
 
+// slowCloseListener takes a while to close (Serve closes its listeners before it tears the peers down: the time in
+// between is a window in which API calls find the server still serving but already told to stop)
+type slowCloseListener struct {
+	net.Listener
+	d time.Duration
+}
+
+func (l slowCloseListener) Close() error {
+	time.Sleep(l.d)
+	return l.Listener.Close()
+}
+
+// serveSlowClose is serve with a listener whose Close takes d
+func (e *Env) serveSlowClose(d time.Duration) {
+	var err error
+	e.lis, err = net.Listen("tcp", "127.0.0.1:0")
+	if err != nil {
+		panic(err)
+	}
+	e.lisAddr = e.lis.Addr().String()
+	e.serveCh = make(chan error, 1)
+	e.tr.log("-", "api.call", "Serve")
+	go func() {
+		err := e.srv.Serve([]net.Listener{slowCloseListener{e.lis, d}})
+		e.tr.log("-", "api.ret", "Serve", errName(err))
+		e.serveCh <- err
+	}()
+}
+
 // serveN is serve with n listeners (the first is the one the remote dials)
 func (e *Env) serveN(n int) {
 	var ls []net.Listener
@@ -673,6 +708,7 @@ type Plugin struct {
 	// WriteUpdate calls issued from inside callbacks
 	WriteInEstablished [][]byte
 	WriteInHandler     [][]byte
+	WriteEmpty         bool // one UPDATE with an empty body is written from OnEstablished (untagged)
 	// writers started when the session establishes: each goroutine writes its bodies in order
 	Writers     [][][]byte
 	WriterPause time.Duration
@@ -747,6 +783,9 @@ func (pl *Plugin) OnEstablished(c bgp.PeerConfig, w bgp.UpdateMessageWriter) bgp
 	pl.tr().log(pl.peer.key, "cb.enter", "OnEstablished", g, wid)
 	for _, b := range pl.WriteInEstablished {
 		pl.write(w, wid, append([]byte{byte(pl.writerSeq)}, b...))
+	}
+	if pl.WriteEmpty {
+		pl.write(w, wid, []byte{})
 	}
 	for _, bodies := range pl.Writers {
 		bodies := bodies
@@ -855,18 +894,24 @@ func (c *Conn) smallWindow() {
 	}
 }
 
+// resumeReads ends a pause early
+func (c *Conn) resumeReads() {
+	c.mu.Lock()
+	was := c.paused
+	c.paused = false
+	c.mu.Unlock()
+	if was {
+		c.r.tr().log(c.r.peer.key, "r.resume", c.id)
+	}
+}
+
 // pauseReads makes the remote stop reading for d (it keeps the connection open and may keep sending)
 func (c *Conn) pauseReads(d time.Duration) {
 	c.mu.Lock()
 	c.paused = true
 	c.mu.Unlock()
 	c.r.tr().log(c.r.peer.key, "r.pause", c.id, strconv.Itoa(int(d/time.Millisecond)))
-	time.AfterFunc(d, func() {
-		c.mu.Lock()
-		c.paused = false
-		c.mu.Unlock()
-		c.r.tr().log(c.r.peer.key, "r.resume", c.id)
-	})
+	time.AfterFunc(d, c.resumeReads)
 }
 
 func newRemote(p *Peer) *Remote { return &Remote{peer: p, accCh: make(chan *Conn, 64)} }
